@@ -156,9 +156,24 @@ def graph_wf(fm, written=None):
         if not isinstance(n.data, ASTOperation):
             return [n.data] if isinstance(n.data, str) and not n.data.startswith("'") else []
         return leaf_names(n.left) + leaf_names(n.right)
+    def shared_node(root):
+        """an expression TREE: no node object is reached along two paths (nor from two constraints)"""
+        stack = [root]
+        while stack:
+            n = stack.pop()
+            if n is None:
+                continue
+            if id(n) in seen_nodes:
+                return True
+            seen_nodes.add(id(n))
+            stack.extend((n.left, n.right))
+        return False
+    seen_nodes = set()
     for c in fm.ctcs:
         if not shape(c.ast.root):
             fails.append(("ctc:shape", c.name))
+        elif shared_node(c.ast.root):
+            fails.append(("ctc:not-a-tree", f"{c.name}: a node is an operand of two operators"))
         else:
             try:
                 got = sorted(c.get_features())
